@@ -228,6 +228,9 @@ def closeMat (tol : Rat) (a b : Mat) : Bool :=
   a.nRow == b.nRow && a.nCol == b.nCol &&
   (List.range a.nRow).all fun i => (List.range a.nCol).all fun j => close tol sc (a.get i j) (b.get i j)
 
+/-- every entry is an integer: what an operator cast to `int` (SparseLR, CoNeighbor) returns on integer input -/
+def integralVec (v : Vec) : Bool := v.all fun x => x.den == 1
+
 /-- column sums, row sums of a dense matrix -/
 def colSums (a : Mat) : Vec := a.transpose.rowSums
 
